@@ -326,10 +326,14 @@ def annotate_fn(text, ann, clauses, fname):
     exp = ann.get('expect')
     if exp and exp.get('contains'):
         # literals the proof is indexed against (direction tables): if they were edited the proof does not apply
+        # ... and the order of the blocks the hints are written for: the listed texts must occur in this order
         flat = ' '.join(text.split())
+        at = 0
         for lit in exp['contains']:
-            if ' '.join(lit.split()) not in flat:
-                raise LostAnchor('%s: expected literal %r not found (table edited or reordered: the index-wise proof does not apply)' % (fname, lit))
+            k = flat.find(' '.join(lit.split()), at)
+            if k < 0:
+                raise LostAnchor('%s: expected text %r not found at its place (edited, or blocks reordered: the position-indexed proof does not apply)' % (fname, lit))
+            at = k + 1
     if exp:
         for k in exp:
             if k == 'contains':
